@@ -33,6 +33,13 @@ Example response_cap_is : response_cap = 1000. Proof. reflexivity. Qed.
     the previous assignee's fees) has no production caller.  The translator lists the callers. *)
 Lemma reassign_not_reachable : Gen.C14.reassign_production_callers = [].
 Proof. reflexivity. Qed.
+(** ... and should it ever get one: it picks once per stale message, with that message's requirements
+    (seeded C14-P picked once per queue). *)
+Example reassign_loop_shape_is :
+  Gen.C14.reassign_loop_shape =
+  ["req := deriveMessageRequirements(evmmsg, k.cdc)";
+   "newVal, newRemoteAddr, err := k.evmKeeper.PickValidatorForMessage(ctx, evmmsg.ChainReferenceID, req)"]%string.
+Proof. reflexivity. Qed.
 
 (** ---- store order ---- *)
 Definition id_lt (a b : qmsg) : Prop := mid a < mid b.
